@@ -21,6 +21,7 @@ def run(ctx):
     # what is proved so far of the stage-2 → stage-1 simulation (branch tables refine, refusal branches stutter, the admission
     # contract transferred to record-level states); the state-changing branches and the sweeps are tied by the executable abs cross-check
     engine2_common.audit_sim(ctx)
+    engine_common.run_parked(ctx, ["C01:"])
     ctx.cov["rule"] = ("seeded operation sequences (LOCK/UNLOCK with flags from the core subset, ticks, role flips, snapshots, adaptive drain) on 1–2 keys, 2–4 LockIds, "
                        "3 connections; three profiles (mixed, capacity-heavy, queue-heavy); distinct_nontrivial = distinct sequences containing at least one grant")
 
